@@ -899,6 +899,33 @@ def probe(case):
             facts['bad'] = 'opened behind the fetcher: %s' % facts['audit_bad'][:2]
         elif [7, 3] not in facts['pdf']['images']:
             facts['bad'] = 'the fetched bytes are not the image of the PDF'
+    elif name == 'lazy-local-shadow':
+        # the URL names a file that EXISTS, the caller's fetcher answers it from memory with other bytes (another
+        # size, or - 'same_size' - the same number of bytes): the image of the document is the fetched one
+        import tempfile
+        with tempfile.TemporaryDirectory() as folder:
+            path = os.path.join(folder, 'shadow.png')
+            other = raster_bytes(9)
+            if case.get('same_size'):
+                other = other + b'\0' * max(0, len(png) - len(other))
+                served = png + b'\0' * max(0, len(other) - len(png))
+            else:
+                other, served = other + b'\0' * 40, png
+            with open(path, 'wb') as fd:
+                fd.write(other)
+            url = 'file://' + path
+            key = 'string' if case.get('how', 'string') == 'string' else 'file_obj'
+            answer = ({'string': served, 'mime_type': 'image/png'} if key == 'string' else
+                      (lambda: {'file_obj': io.BytesIO(served), 'mime_type': 'image/png'}))
+            run('<img src="%s" alt="A">' % url, serve({url: answer}))
+        facts['sizes'] = [len(served), len(other)]
+        if facts.get('exc'):
+            facts['bad'] = 'raised at %s: %s %s' % (facts['exc']['stage'], facts['exc']['type'], facts['exc']['msg'])
+        elif facts['audit_bad']:
+            facts['bad'] = ('the image the fetcher answered from memory is read again from the file of that name when the '
+                            'PDF is written (opened behind the fetcher: %s)' % (facts['audit_bad'][:2],))
+        elif facts['calls'].count(url) != 1:
+            facts['bad'] = 'fetcher calls: %s' % (facts['calls'],)
     elif name == 'xhtml-image':
         run('<p>before</p><img src="http://x/a.png" alt="ALT TEXT"><p>after</p>',
             serve({'http://x/a.png': {'string': XHTML_404, 'mime_type': case.get('mime', 'text/html')}}))
